@@ -150,3 +150,99 @@ func TestVerifC09ClientStall(t *testing.T) {
 	wg.Wait()
 	en.Done(true)
 }
+
+// TestVerifC09ClientResponseSize: the limit the runner applies to a client's answers (16 MiB; the server's start
+// response has its own, smaller limit of 1 MiB): an answer of 1 MiB ± 1, of 16 MiB - 1 and of exactly 16 MiB is read
+// back as sent and the next answer after it too; one byte more is refused before it is read, naming the size.
+func TestVerifC09ClientResponseSize(t *testing.T) {
+	en := verifkit.NewEnum(t, "C09ClientResponseSize")
+	type row struct {
+		Size int `json:"size"`
+	}
+	rows := []row{{maxServerResponseSize - 1}, {maxServerResponseSize}, {maxServerResponseSize + 1}, {maxClientResponseSize - 1}, {maxClientResponseSize}, {maxClientResponseSize + 1}}
+	var replay row
+	if en.ReplayCase(&replay) {
+		rows = []row{replay}
+	}
+	// an answer whose encoding has exactly the given size
+	build := func(name string, size int) []byte {
+		pad := size
+		for {
+			msg := &conformancev1.ClientCompatResponse{TestName: name, Result: &conformancev1.ClientCompatResponse_Error{Error: &conformancev1.ClientErrorResult{Message: strings.Repeat("x", pad)}}}
+			if n := proto.Size(msg); n == size {
+				data, _ := proto.Marshal(msg)
+				return data
+			} else if n > size {
+				pad -= n - size
+			} else {
+				pad += size - n
+			}
+		}
+	}
+	for _, r := range rows {
+		viol := func() error {
+			client := func(ctx context.Context, _ []string, in io.ReadCloser, out, _ io.WriteCloser) error {
+				for {
+					req := &conformancev1.ClientCompatRequest{}
+					if err := internal.ReadDelimitedMessage(in, req, "runner", time.Minute, 1<<20); err != nil {
+						return nil
+					}
+					size := 40
+					if strings.HasSuffix(req.TestName, "/big") {
+						size = r.Size
+					}
+					data := build(req.TestName, size)
+					var l [4]byte
+					binary.BigEndian.PutUint32(l[:], uint32(len(data)))
+					if _, err := out.Write(append(l[:], data...)); err != nil {
+						return nil
+					}
+				}
+			}
+			runner, err := runClient(context.Background(), runInProcess([]string{"verif-big-answers"}, client))
+			if err != nil {
+				return nil
+			}
+			defer runner.stop()
+			type cb struct {
+				resp *conformancev1.ClientCompatResponse
+				err  error
+			}
+			ask := func(name string) (cb, bool) {
+				got := make(chan cb, 2)
+				if err := runner.sendRequest(&conformancev1.ClientCompatRequest{TestName: name}, func(_ string, resp *conformancev1.ClientCompatResponse, err error) { got <- cb{resp, err} }); err != nil {
+					return cb{nil, err}, true
+				}
+				select {
+				case c := <-got:
+					return c, true
+				case <-time.After(40 * time.Second):
+					return cb{}, false
+				}
+			}
+			big, ok := ask("verif/c09/big")
+			if !ok {
+				return verifkit.Violf("client-limit-hang", "no callback 40s after a request whose answer has %d bytes", r.Size)
+			}
+			if r.Size <= maxClientResponseSize {
+				if big.err != nil || big.resp == nil || proto.Size(big.resp) != r.Size {
+					return verifkit.Violf("client-answer-at-limit-refused", "an answer of %d bytes (limit %d) was not handed over as sent: err=%v", r.Size, maxClientResponseSize, big.err)
+				}
+				next, ok := ask("verif/c09/next")
+				if !ok || next.err != nil || next.resp.GetTestName() != "verif/c09/next" {
+					return verifkit.Violf("client-answer-after-big-lost", "the answer after one of %d bytes: err=%v (callback %v)", r.Size, next.err, ok)
+				}
+				return nil
+			}
+			if big.err == nil || !strings.Contains(big.err.Error(), fmt.Sprint(r.Size)) {
+				return verifkit.Violf("client-oversize-accepted", "an answer of %d bytes (limit %d): callback error %v, want a refusal naming the size", r.Size, maxClientResponseSize, big.err)
+			}
+			return nil
+		}()
+		en.Rec.Observe(r, []string{fmt.Sprintf("size:%d", r.Size)}, true)
+		if viol != nil && en.Fail(r, viol) {
+			break
+		}
+	}
+	en.Done(true)
+}
